@@ -14,6 +14,9 @@ CONSTANTS
   MaxDup = 4
   MaxPopCalls = 30
   MaxMidFlush = 2
+  Eagers = {TRUE, FALSE}
+  Holds = {0}
+  HoldFors = {3, 7, 12}
   Algo = "none"
   Impl = "asis"
   Sampling = TRUE
